@@ -3896,7 +3896,18 @@ def pull(
                 config=r.get_config_stack(),
             )
         if remote_name is not None:
-            _import_remote_refs(r.refs, remote_name, fetch_result.refs)
+            # The transfer asked for the refs the refspecs select, not for
+            # everything the remote advertised: record only refs whose
+            # objects are here.
+            _import_remote_refs(
+                r.refs,
+                remote_name,
+                {
+                    ref: sha
+                    for ref, sha in fetch_result.refs.items()
+                    if sha is not None and sha in r.object_store
+                },
+            )
 
     # Trigger auto GC if needed
     from ..gc import maybe_auto_gc
